@@ -153,7 +153,7 @@ class OpHarness(symex.Harness):
     """
 
     def __init__(self, system, N, M, pm="rc2", weakly=False, keys=None, shapes=None,
-                 level="L1", max_decisions=3000, label=None, order=None):
+                 level="L1", max_decisions=3000, label=None, order=None, canonical=False, layers=None):
         setup()
         self.system, self.N, self.M, self.pm, self.weakly = system, N, M, pm, weakly
         self.keys = keys or list(range(1, M + 1))
@@ -161,7 +161,12 @@ class OpHarness(symex.Harness):
         self.level = level
         self.max_decisions = max_decisions
         self.sb = SymBase(N, M, 1, shapes)
-        self.label = label or "%s/%s/%s N=%d M=%d %s" % (system, pm or "-", "ext" if weakly else "strict", N, M, level)
+        self.label = label or "%s/%s/%s N=%d M=%d %s%s" % (system, pm or "-", "ext" if weakly else "strict", N, M, level,
+                                                           " canonical-order" if canonical else "")
+        self.canonical = canonical
+        self.layers = layers      # slice: conditional i sits in tolerance layer layers[i]
+        if layers:
+            self.label += " slice-layers=%s" % (layers,)
         A, B, QA, QB = self.sb.tables()
         self.spec = specs.BaseSpec(A, B)
         self.QA, self.QB = QA[0], QB[0]
@@ -197,7 +202,17 @@ class OpHarness(symex.Harness):
 
     def mk_engine(self):
         tt.set_universe(self.N)
-        return symex.Engine(max_decisions=self.max_decisions)
+        pre = []
+        if self.canonical:
+            # symmetry breaking: conditionals listed in non-decreasing order of their (A,B)
+            # tables; other list orders are the business of C12
+            sb = self.sb
+            for i in range(self.M - 1):
+                pre.append(Z.ULE(Z.Concat(sb.A[i], sb.B[i]), Z.Concat(sb.A[i + 1], sb.B[i + 1])))
+        if self.layers:
+            for i, L in enumerate(self.layers):
+                pre.append(Z.And(self.spec.placed[i], self.spec.layer[i] == specs.iv(L)))
+        return symex.Engine(assumptions=pre, max_decisions=self.max_decisions)
 
     # the code under test
     def make_base(self):
